@@ -272,6 +272,9 @@ class HillClimbSearch(StructureEstimator):
             raise ValueError(
                 "'start_dag' should be a DAG with the same variables as the data set, or 'None'."
             )
+        else:
+            # Work on a copy: the search must not modify the caller's graph.
+            start_dag = start_dag.copy()
 
         # Step 1.3: Check fixed_edges
         if not hasattr(fixed_edges, "__iter__"):
